@@ -1603,6 +1603,20 @@ func concreteLen(p []piece) (int, bool) {
 	return n, true
 }
 
+func allBytePieces(p []piece) bool {
+	hasByte := false
+	for _, x := range p {
+		switch x.k {
+		case pByte:
+			hasByte = true
+		case pLit:
+		default:
+			return false
+		}
+	}
+	return hasByte
+}
+
 // ropeIndex returns byte i of the rope (i concrete).
 func ropeIndex(r symStr, i int) value {
 	off := 0
@@ -1933,6 +1947,17 @@ func (e *Exec) symConv(t_dst, t_src types.Type, x value) value {
 		if sl, ok := t_dst.Underlying().(*types.Slice); ok {
 			if eb, isB := sl.Elem().Underlying().(*types.Basic); isB && eb.Kind() == types.Int32 {
 				return e.ropeToRunes(x)
+			}
+			// a short string made of literal and single-byte pieces only becomes a real (mutable, fresh)
+			// byte slice, as the conversion does in Go; longer or opaque strings stay ropes (read-only)
+			if allBytePieces(x.p) {
+				if n, ok := concreteLen(x.p); ok && n <= 64 {
+					out := make([]value, n)
+					for i := 0; i < n; i++ {
+						out[i] = ropeIndex(x, i)
+					}
+					return out
+				}
 			}
 			x.bytes = true
 			return x
